@@ -439,7 +439,13 @@ def compare_factory(ctx: Ctx, actual_q: str, ref_name: str, what: str, *, soft: 
     cr = sorted(c for cs in fr.closures.values() for c in cs)
     na_names, nr_names = param_names(ia.node), param_names(ir.node)
     if len(ca) != len(cr) or len(na_names) != len(nr_names) or fa.unsupported:
-        ctx.undecided(key, f"{actual_q}: shape of the factory changed ({len(ca)} closures, {len(na_names)} parameters)", where)
+        if soft:
+            ctx.count("restructured_not_compared")
+            ctx.count("kernels")
+            ctx.ob(key, True, where, f"{what}: signature or nested functions differ from the reviewed form "
+                   f"({len(ca)} closures, {len(na_names)} parameters); no conclusion is drawn from the comparison", nontrivial=False)
+        else:
+            ctx.undecided(key, f"{actual_q}: shape of the factory changed ({len(ca)} closures, {len(na_names)} parameters)", where)
         return
     mapping = {}
     qmap = {ref_q: actual_q}
